@@ -79,6 +79,30 @@ unsafe fn d_init<'a>(cfg: &DCfgM, data: &'a [u8], hold: &mut Vec<GzHold>) -> Res
     Ok(m)
 }
 
+/// abstract observation states for the evidence: (call kind, status, consumed?, produced?)
+fn record(c: &mut Case, ops: &[MOp], obs: &[MObs]) {
+    let mut prev: Option<u64> = None;
+    for (op, o) in ops.iter().zip(obs) {
+        let kind = match op {
+            MOp::Call { flush, .. } => *flush as u32,
+            MOp::Params(..) => 10,
+            MOp::Tune(..) => 11,
+            MOp::SetDict(_) => 12,
+            MOp::Pending => 13,
+            MOp::GetDict => 14,
+            MOp::Prime(..) => 15,
+            MOp::Sync => 16,
+            MOp::Validate(_) => 17,
+        };
+        let h = hash_u32s(&[kind, o.ret as u32, (o.din > 0) as u32, (o.dout > 0) as u32]);
+        c.state(h);
+        if let Some(p) = prev {
+            c.trans(p, h);
+        }
+        prev = Some(h);
+    }
+}
+
 fn cmp(what: &str, k: usize, op: &MOp, got: &MObs, want: &MObs) -> Result<(), String> {
     if got != want {
         return Err(format!("{what}: suffix op {k} {} observed {:?}, the uncopied/fresh run observed {:?}", op.tag(), got, want));
@@ -175,6 +199,7 @@ fn deflate_copy(ctx: &mut Ctx, env: &MEnv) {
                                     return Err(format!("allocator discipline after ending original and copy: {} live blocks, {:?}", ctl.live.len(), ctl.errors));
                                 }
                             }
+                            record(c, &full_suffix, &want);
                             c.outcome(want.iter().fold(ci as u64, |h, o| mix(h, mix(o.out_hash, o.ret as u64))));
                             if !prefix.is_empty() {
                                 c.nontrivial();
@@ -416,6 +441,7 @@ fn inflate_copy_and_reset(ctx: &mut Ctx, env: &MEnv) {
                                     return Err(format!("allocator discipline after ending original and copy: {} live blocks, {:?}", ctl.live.len(), ctl.errors));
                                 }
                             }
+                            record(c, &full_suffix, &want);
                             c.outcome(want.iter().fold(7u64, |h, o| mix(h, mix(o.out_hash, o.ret as u64))));
                             if !prefix.is_empty() {
                                 c.nontrivial();
